@@ -154,7 +154,7 @@ def _loop_of(b, site):
         if not some:
             continue
         body = b.reach(some[0], avoid_blocks=[c.bb])
-        if site.bb in body and (best is None or len(body) < best[0]):
+        if site.bb in body and (best is None or b.dominates(best[1].bb, c.bb)):
             best = (len(body), c)
     return best[1] if best else None
 
